@@ -164,7 +164,7 @@ class PartitionWellFormed(Contract):
         n = len(partitions)
         try:
             orig = D.global_original([ctxs[r].outputs for r in range(n)])
-            inputs = [{"x": ctxs[r].x} for r in range(n)]
+            inputs = [ctxs[r].user_inputs() for r in range(n)]
             part = D.global_partitioned(partitions, inputs)
         except (ValueError, KeyError) as e:
             h.fail("dist.find.value.global-data-flow-defined",
